@@ -35,8 +35,8 @@ uint64_t MHD_monotonic_msec_counter (void) { return vclock_ms; }
 /* ---------------------------------------------------------------- config */
 static struct {
   char mode[16]; size_t mem, incr; int lvl; unsigned limit, perip, timeout;
-  int upgrade, suspend, have_lvl; unsigned nonce_tbl;
-} cfg = { "select", 0, 0, 0, 0, 0, 0, 0, 0, 0, 0 };
+  int upgrade, suspend, have_lvl; unsigned nonce_tbl; int auth;
+} cfg = { "select", 0, 0, 0, 0, 0, 0, 0, 0, 0, 0, 0 };
 
 static struct MHD_Daemon *d;
 
@@ -72,9 +72,11 @@ struct conn {
   struct beh beh[MAXR];
   /* upgrade */
   struct MHD_UpgradeResponseHandle *urh; MHD_socket usock; int upgraded;
+  char nonce[160];          /* last nonce="…" seen in a reply on this connection */
   int ctx_serial;
 };
 static struct conn conns[MAXC];
+static char last_nonce[160];   /* last nonce="…" seen in any reply (nonces are not bound to a connection) */
 
 struct hdrspec { int kind; /* 0 add hdr, 1 add footer, 2 del hdr */ uint8_t *n, *v; };
 struct resp {
@@ -380,6 +382,33 @@ static enum MHD_Result handler (void *cls, struct MHD_Connection *mc, const char
   }
   putchar ('\n');
 
+  if (cfg.auth && !strcmp (phase, "first"))
+  { /* exercise the authentication API the way an application would */
+    struct MHD_BasicAuthInfo *ba = MHD_basic_auth_get_username_password3 (mc);
+    struct MHD_DigestAuthInfo *di = MHD_digest_auth_get_request_info3 (mc);
+    struct MHD_DigestAuthUsernameInfo *du = MHD_digest_auth_get_username3 (mc);
+    enum MHD_DigestAuthResult dr =
+      MHD_digest_auth_check3 (mc, "r", "u", "p", 300, 0, MHD_DIGEST_AUTH_MULT_QOP_ANY_NON_INT,
+                              MHD_DIGEST_AUTH_MULT_ALGO3_ANY_NON_SESSION);
+    printf ("auth c=%d r=%d basic=", rq->c, rq->r);
+    if (ba) printf ("%zu/%s%zu", ba->username_len, ba->password ? "" : "~", ba->password_len); else putchar ('-');
+    printf (" info=");
+    if (di) printf ("a%d,u%d,q%d,nc%u,ul%zu", (int) di->algo3, (int) di->uname_type, (int) di->qop, (unsigned) di->nc, di->username_len); else putchar ('-');
+    printf (" uname=%s check=%d\n", du ? "y" : "-", (int) dr);
+    if (ba) MHD_free (ba);
+    if (di) MHD_free (di);
+    if (du) MHD_free (du);
+    if (MHD_DAUTH_OK != dr && 0 == strncmp (url, "/auth", 5))
+    {
+      struct MHD_Response *m = MHD_create_response_from_buffer_copy (6, "denied");
+      enum MHD_Result q = MHD_queue_auth_required_response3 (mc, "r", "o", NULL, m, MHD_DAUTH_NONCE_STALE == dr,
+                                                             MHD_DIGEST_AUTH_MULT_QOP_AUTH, MHD_DIGEST_AUTH_MULT_ALGO3_SHA256, 1, 1);
+      out ("queued c=%d r=%d rid=auth code=401 -> %d", rq->c, rq->r, (int) q);
+      MHD_destroy_response (m);
+      if (MHD_YES == q) rq->replied = 1;
+      return q;
+    }
+  }
   if (!strcmp (phase, "first"))
   {
     if (b->f[0] == 'r') return do_reply (mc, rq, parse_rid (b->f)) == MHD_YES ? MHD_YES : MHD_NO;
@@ -419,7 +448,16 @@ static void drain_clients (void)
     for (;;)
     {
       ssize_t r = recv (conns[c].cfd, buf, sizeof(buf), MSG_DONTWAIT);
-      if (r > 0) { printf ("wire c=%d ", c); lp_puthex (stdout, buf, (size_t) r); putchar ('\n'); continue; }
+      if (r > 0)
+      {
+        static const char key[] = "nonce=\"";
+        uint8_t *q = (uint8_t *) memmem (buf, (size_t) r, key, sizeof(key) - 1);
+        if (q)
+        { size_t k = 0; q += sizeof(key) - 1;
+          while (q < buf + r && *q != '"' && k + 1 < sizeof(conns[c].nonce)) conns[c].nonce[k++] = (char) *q++;
+          conns[c].nonce[k] = 0; memcpy (last_nonce, conns[c].nonce, k + 1); }
+        printf ("wire c=%d ", c); lp_puthex (stdout, buf, (size_t) r); putchar ('\n'); continue;
+      }
       if (0 == r) { out ("eof c=%d", c); conns[c].eof_seen = 1; }
       else if (errno == ECONNRESET || errno == EPIPE) { out ("rst c=%d", c); conns[c].eof_seen = 1; }
       break;
@@ -517,7 +555,7 @@ static void reset_all (void)
   for (i = 0; i < MAXRESP; i++) { for (j = 0; j < resps[i].nh; j++) { free (resps[i].h[j].n); free (resps[i].h[j].v); } }
   memset (resps, 0, sizeof(resps));
   memset (freecb_count, 0, sizeof(freecb_count));
-  memset (&cfg, 0, sizeof(cfg)); strcpy (cfg.mode, "select");
+  memset (&cfg, 0, sizeof(cfg)); strcpy (cfg.mode, "select"); last_nonce[0] = 0;
   vclock_ms = 1000000;
 }
 
@@ -550,6 +588,7 @@ int main (void)
         else if (kv (l.w[i], "upgrade", &v)) cfg.upgrade = atoi (v);
         else if (kv (l.w[i], "suspend", &v)) cfg.suspend = atoi (v);
         else if (kv (l.w[i], "nonce_tbl", &v)) cfg.nonce_tbl = (unsigned) atoi (v);
+        else if (kv (l.w[i], "auth", &v)) cfg.auth = atoi (v);
       }
       out ("ok"); continue;
     }
@@ -620,6 +659,18 @@ int main (void)
       while (offn < n) { ssize_t r = send (conns[a].cfd, bytes + offn, n - offn, MSG_DONTWAIT | MSG_NOSIGNAL); if (r <= 0) break; offn += (size_t) r; }
       free (bytes);
       out ("sent c=%d n=%zu", (int) a, offn); continue;
+    }
+    if (!strcmp (op, "sendn") && l.n >= 3 && lp_u64 (l.w[1], &a) && a < MAXC && conns[a].used)
+    { /* like send, but every "@N@" in the data is replaced by the last nonce the client received */
+      size_t n, offn = 0, o = 0; uint8_t *bytes = lp_unhex (l.w[2], &n); uint8_t *x; size_t nl = strlen (last_nonce), i2;
+      if (!bytes) { out ("bad-op"); continue; }
+      x = (uint8_t *) malloc (n * (nl / 3 + 2) + 16);
+      for (i2 = 0; i2 < n; )
+        if (i2 + 3 <= n && !memcmp (bytes + i2, "@N@", 3)) { memcpy (x + o, last_nonce, nl); o += nl; i2 += 3; }
+        else x[o++] = bytes[i2++];
+      while (offn < o) { ssize_t r = send (conns[a].cfd, x + offn, o - offn, MSG_DONTWAIT | MSG_NOSIGNAL); if (r <= 0) break; offn += (size_t) r; }
+      free (bytes); free (x);
+      out ("sent c=%d n=%zu nonce=%s", (int) a, offn, nl ? "y" : "n"); continue;
     }
     if (!strcmp (op, "shutwr") && l.n >= 2 && lp_u64 (l.w[1], &a) && a < MAXC && conns[a].used)
     { shutdown (conns[a].cfd, SHUT_WR); out ("ok"); continue; }
